@@ -509,6 +509,11 @@ func (en *DefaultEngine) Exec(ctx context.Context, input []byte) (bool, error) {
 			return true, err
 		}
 	}
+	// ... and so is over-long input: initialization discards output that has not been fetched
+	// and can end a session, which a refused request must not do
+	if len(input) > state.INPUT_LIMIT {
+		return true, fmt.Errorf("input size %v too large (limit %v)", len(input), state.INPUT_LIMIT)
+	}
 
 	cont, err := en.init(ctx, input)
 	if err != nil {
